@@ -70,7 +70,7 @@ package x509
 // the untyped memory model needs to be told).
 //@ pred viewKept(s, n) = forall(i, 0, n, !spec.pmark(i) || s.certs[i] == old(s.certs[i]), spec.pmark(i))
 //@ func (*CertPool).AddCert
-//@   uses perreturn
+//@   uses perreturn xadd
 //@   requires poolInv(s)
 //@   requires sep(s, cert)
 //@   panics_when cert == nil
@@ -118,7 +118,7 @@ package x509
 
 // ---------------------------------------------------------------- chain.go, verify.go (property C07)
 
-//@ pred chainOK(chain) = forall(i, 0, len(chain), chain[i] != nil, spec.pmark(i))
+//@ pred chainOK(chain) = forall(i, 0, len(chain), chain[i] != nil, chain[i])
 
 // Fresh copy of the chain plus one certificate at the end; the argument is not modified.
 //@ func (CertificateChain).AppendToFreshChain
@@ -134,43 +134,39 @@ package x509
 //@   terminates
 
 // beqp(a, b) is eq(a, b) written out with a trigger on the byte quantifier. The loop invariants say
-// "no element before position it is equal", written forall k < len: k == it || k > it || ...
-// (the same statement as forall k < it; the explicit atom k == it helps the solver connect the
-// new element with the comparison just made). Position quantifiers use the spec.pmark trigger
-// (see the CertPool section); pmark(it) makes the element the loop is looking at available as
-// the witness of "some element is equal" when the function returns true.
+// "no element before position it is equal"; they are written forall k < len: k == it || k > it || ...
+// (the same statement as forall k < it) because the explicit atom k == it lets the solver connect
+// the new element with the comparison just made without bit-level search.
 //@ pred beqp(a, b) = len(a) == len(b) && forall(e, 0, len(a), a[e] == b[e], a[e])
 
 // "repeats no certificate": membership in the chain by the certificate's DER bytes.
 //@ func (CertificateChain).CertificateInChain
-//@   uses perreturn
+//@   uses perreturn xadd
 //@   requires c != nil && chainOK(chain)
-//@   loop 1 invariant spec.pmark(it)
-//@   loop 1 invariant forall(k, 0, len(chain), !spec.pmark(k) || k == it || k > it || !beqp(c.Raw, chain[k].Raw), spec.pmark(k))
-//@   ensures result ==> !forall(i, 0, len(chain), !eq(c.Raw, chain[i].Raw), spec.pmark(i))
-//@   ensures !result ==> forall(i, 0, len(chain), !spec.pmark(i) || !eq(c.Raw, chain[i].Raw), spec.pmark(i))
+//@   loop 1 invariant forall(k, 0, len(chain), k == it || k > it || !beqp(c.Raw, chain[k].Raw), chain[k])
+//@   ensures result ==> exists(i, 0, len(chain), eq(c.Raw, chain[i].Raw))
+//@   ensures !result ==> forall(i, 0, len(chain), !eq(c.Raw, chain[i].Raw), chain[i])
 //@   terminates
 
 //@ pred skSame(a, b) = beqp(a.RawSubject, b.RawSubject) && beqp(a.RawSubjectPublicKeyInfo, b.RawSubjectPublicKeyInfo)
-//@ pred skEq(a, b) = eq(a.RawSubject, b.RawSubject) && eq(a.RawSubjectPublicKeyInfo, b.RawSubjectPublicKeyInfo)
 //@ func (CertificateChain).SubjectAndKeyInChain
-//@   uses perreturn
+//@   uses perreturn xadd
 //@   requires sk != nil && chainOK(chain)
-//@   loop 1 invariant 0 <= it && it <= len(chain) && spec.pmark(it)
+//@   loop 1 invariant 0 <= it && it <= len(chain)
 //@   loop 1 decreases len(chain) - it
-//@   loop 1 invariant forall(k, 0, len(chain), !spec.pmark(k) || k == it || k > it || !skSame(sk, chain[k]), spec.pmark(k))
-//@   ensures result ==> !forall(i, 0, len(chain), !skEq(sk, chain[i]), spec.pmark(i))
-//@   ensures !result ==> forall(i, 0, len(chain), !spec.pmark(i) || !skEq(sk, chain[i]), spec.pmark(i))
+//@   loop 1 invariant forall(k, 0, len(chain), k == it || k > it || !skSame(sk, chain[k]), chain[k])
+//@   ensures result ==> exists(i, 0, len(chain), eq(sk.RawSubject, chain[i].RawSubject) && eq(sk.RawSubjectPublicKeyInfo, chain[i].RawSubjectPublicKeyInfo))
+//@   ensures !result ==> forall(i, 0, len(chain), !eq(sk.RawSubject, chain[i].RawSubject) || !eq(sk.RawSubjectPublicKeyInfo, chain[i].RawSubjectPublicKeyInfo), chain[i])
 //@   terminates
 
 //@ func (CertificateChain).CertificateSubjectAndKeyInChain
-//@   uses perreturn
+//@   uses perreturn xadd
 //@   requires c != nil && chainOK(chain)
-//@   loop 1 invariant 0 <= it && it <= len(chain) && spec.pmark(it)
+//@   loop 1 invariant 0 <= it && it <= len(chain)
 //@   loop 1 decreases len(chain) - it
-//@   loop 1 invariant forall(k, 0, len(chain), !spec.pmark(k) || k == it || k > it || !skSame(c, chain[k]), spec.pmark(k))
-//@   ensures result ==> !forall(i, 0, len(chain), !skEq(c, chain[i]), spec.pmark(i))
-//@   ensures !result ==> forall(i, 0, len(chain), !spec.pmark(i) || !skEq(c, chain[i]), spec.pmark(i))
+//@   loop 1 invariant forall(k, 0, len(chain), k == it || k > it || !skSame(c, chain[k]), chain[k])
+//@   ensures result ==> exists(i, 0, len(chain), eq(c.RawSubject, chain[i].RawSubject) && eq(c.RawSubjectPublicKeyInfo, chain[i].RawSubjectPublicKeyInfo))
+//@   ensures !result ==> forall(i, 0, len(chain), !eq(c.RawSubject, chain[i].RawSubject) || !eq(c.RawSubjectPublicKeyInfo, chain[i].RawSubjectPublicKeyInfo), chain[i])
 //@   terminates
 
 // isValid(certType, currentChain): currentChain is the path below c (leaf first), so
